@@ -165,7 +165,7 @@ def _c08():
     rw = ["W|R|U", "U|U|r", "D|W|R", "R|R|W", "U|W|t", "D|U|R", "r|t|W", "R,W|U|r"]
     for kind in ("spin", "queuing", "mutex", "spec"):
         for i, pr in enumerate(plain):
-            legs.append(leg("%s-%d" % (kind, i), "c08_mutex", (2, 3), {"kind": kind, "prog": pr}, flags=("-fp", "-hb"), what="%s: %s" % (kind, pr)))
+            legs.append(leg("%s-%d" % (kind, i), "c08_mutex", (3, 4), {"kind": kind, "prog": pr}, flags=("-fp", "-hb"), what="%s: %s" % (kind, pr)))
     for kind in ("spin_rw", "queuing_rw", "rw", "spec_rw"):
         for i, pr in enumerate(rw):
             legs.append(leg("%s-%d" % (kind, i), "c08_mutex", (2, 3), {"kind": kind, "prog": pr}, flags=("-fp", "-hb"), what="%s: %s" % (kind, pr),
